@@ -93,6 +93,7 @@ type routerSession struct {
 	f       *flamego.Flame
 	handles map[int]*flamego.Route
 	named   map[int]bool
+	nested  []string // method and path of a request to be served from inside the next request's middleware
 	trees   map[string]flamego.VerifTree
 	shadow  map[int][]flamego.VerifLeaf
 	cur     *reqRecord
@@ -149,12 +150,34 @@ func execRouter(args []string, lines [][]string) []string {
 	for _, m := range allMethods {
 		s.trees[m] = flamego.VerifNewTree()
 	}
-	// application middleware counts chains (C07); the not-found chain runs it too
+	// application middleware counts chains (C07); the not-found chain runs it too.
+	// Three separate Use calls: the middleware slice then has spare capacity, like in a real application.
 	s.f.Use(func(c flamego.Context) {
 		if s.cur != nil {
 			s.cur.chains++
 		}
 	})
+	// NREQ: while the outer request is inside this middleware another request is served on the same
+	// instance (single goroutine, deterministic); it must not influence the outer request's outcome
+	s.f.Use(func(c flamego.Context) {
+		if s.nested == nil {
+			return
+		}
+		n := s.nested
+		s.nested = nil
+		outer := s.cur
+		s.cur = &reqRecord{hid: -1}
+		req := (&http.Request{
+			Method: n[0], URL: &url.URL{Path: n[1]}, Header: http.Header{},
+			Proto: "HTTP/1.1", ProtoMajor: 1, ProtoMinor: 1, Host: "x",
+		}).WithContext(context.Background())
+		func() {
+			defer func() { _ = recover() }()
+			s.f.ServeHTTP(httptest.NewRecorder(), req)
+		}()
+		s.cur = outer
+	})
+	s.f.Use(func(c flamego.Context) {})
 	outs := []string{"new"}
 	for _, l := range lines {
 		outs = append(outs, s.op(l))
@@ -196,6 +219,15 @@ func (s *routerSession) op(l []string) (out string) {
 			return "bad-op"
 		}
 		return s.req(unhx(l[1]), unhx(l[2]), l[3:])
+	case "NREQ":
+		// NREQ <method> <path> <nested method> <nested path> <hdrs…>: like REQ, with a nested request served meanwhile
+		if len(l) < 5 {
+			return "bad-op"
+		}
+		s.nested = []string{unhx(l[3]), unhx(l[4])}
+		out := s.req(unhx(l[1]), unhx(l[2]), l[5:])
+		s.nested = nil
+		return out
 	case "TREQ":
 		if len(l) < 3 {
 			return "bad-op"
